@@ -5,7 +5,12 @@ K: the extracted Coq model of s4u_FileSystem.cpp (SGV.Plugins.FileSystem) vs. th
 O: the verified per-step oracle step_ok (C46_oracle_is_spec) is run on every observation of the implementation:
    used size == sum of the content map, read <= bytes up to the end of the file, unlink gives back the file's size.
 Histories that leave the discipline of C46_used_eq_sum_partial (two Files on one path, use of a File after
-move/unlink, move onto an existing path) are judged by O only and reported under the recorded finding signatures."""
+move/unlink, move onto an existing path) are judged by O only and reported under the recorded finding signatures.
+Multi-actor mode (xbt2_fs_drv <dir> multi): 2-3 actors on the one disk, each with its own files, their operations aligned
+   on the same simulated dates (sleep_until; optional yields shift the segments by scheduling sub-rounds), an auditor actor
+   reads used size / content total once every operation of the round is over.  K: the extracted interleaving model
+   run_c46_multi (SGV.Plugins.FileSystemConc; C46_concurrent_used_eq_sum_partial holds for EVERY interleaving) on the same
+   rounds: used, total, result/size/position per actor, final content.  O: used == total at every audit point."""
 import json, os, tempfile
 import fw
 
@@ -102,6 +107,236 @@ CORPUS = [
 ]
 
 
+# ---------------------------------------------------------------------------------------------- multi-actor mode
+APATHS = 3  # actor a owns the paths a*10 .. a*10+APATHS-1 and its own File slots
+
+
+class _Act:
+    """generation-time bookkeeping of one actor (guidance only, never used for a verdict)"""
+
+    def __init__(self, a):
+        self.paths = [a * 10 + k for k in range(APATHS)]
+        self.slot_path, self.stale, self.pos = {}, set(), {}
+
+
+def gen_multi(rng, tight):
+    """rounds of one operation per actor, every actor inside the discipline and on its own files; 'give-back' rounds make
+    several actors return space to the disk at the same date (unlink / truncating overwrite)"""
+    nact = rng.choice([2, 2, 3])
+    acts = [_Act(a) for a in range(nact)]
+    size = {}
+    for A in acts:
+        for p in A.paths:
+            if rng.random() < 0.7:
+                size[p] = rng.choice([100, 1000, 2500, 4000, rng.randint(1, 5000)])
+    cont = sorted(size.items())
+    rng.shuffle(cont)
+    cap = sum(size.values()) + rng.randint(0, 3000) if tight else 10 ** 12
+    rows = []
+    for _ in range(rng.randint(2, 14)):
+        giveback = rng.random() < 0.4
+        row = []
+        for A in acts:
+            live = [s for s in A.slot_path if s not in A.stale]
+            free = [s for s in range(SLOTS) if s not in A.slot_path]
+            op = (7, 0, 0, 0)
+            if rng.random() < 0.05:
+                pass
+            elif not live:
+                if A.stale and (not free or rng.random() < 0.5):
+                    s = rng.choice(sorted(A.stale))
+                    A.stale.discard(s)
+                    del A.slot_path[s]
+                    op = (6, s, 0, 0)
+                elif free:
+                    s, p = rng.choice(free), rng.choice(A.paths)
+                    A.slot_path[s], A.pos[s] = p, 0
+                    size.setdefault(p, 0)
+                    op = (0, s, p, 0)
+            else:
+                s = rng.choice(live)
+                p = A.slot_path[s]
+                k = rng.random()
+                if giveback:
+                    k = 0.05 if (A.pos[s] < size[p] and rng.random() < 0.5) else (0.95 if rng.random() < 0.6 else 0.5)
+                if k < 0.3:       # write (k < 0.1: overwrite, truncating when inside the file)
+                    n = rng.choice([1, 10, 100, 500, rng.randint(0, 3000)])
+                    inside = 0 if k < 0.1 else rng.randint(0, 1)
+                    if n and not tight:
+                        if not inside and A.pos[s] < size[p]:
+                            size[p] = A.pos[s]
+                        A.pos[s] += n
+                        size[p] = max(size[p], A.pos[s])
+                    op = (1, s, n, inside)
+                elif k < 0.4:     # read
+                    n = rng.choice([0, 1, 10, 100, 10 ** 6])
+                    if size[p]:
+                        A.pos[s] += min(n, size[p] - A.pos[s])
+                    op = (2, s, n, 0)
+                elif k < 0.7:     # seek (mostly to a position inside the file: prepares a truncating overwrite)
+                    if tight or rng.random() < 0.7:
+                        off, origin = (rng.randint(0, size[p]) if rng.random() < 0.8 else rng.randint(0, 6000)), 0
+                        new = off
+                    else:
+                        origin = rng.choice([1, 2])
+                        base = A.pos[s] if origin == 1 else size[p]
+                        off = rng.randint(-base, 300)
+                        new = base + off
+                    A.pos[s] = new
+                    size[p] = max(size[p], new)
+                    op = (3, s, off, origin)
+                elif k < 0.78:    # move to a fresh path of the same actor (or outside the mount point)
+                    cand = [q for q in A.paths if q not in size] + [-1]
+                    q = rng.choice(cand)
+                    if q >= 0:
+                        size[q] = size.pop(p)
+                        A.stale.add(s)
+                    op = (4, s, q, 0)
+                elif k < 0.9 or giveback:
+                    size.pop(p)
+                    A.stale.add(s)
+                    op = (5, s, 0, 0)
+                else:
+                    del A.slot_path[s]
+                    op = (6, s, 0, 0)
+            if op[0] != 7 and rng.random() < 0.2:
+                op = (op[0] + 10 * rng.randint(1, 2),) + op[1:]
+            row.append(op)
+        rows.append(row)
+    return [cap, len(cont)] + [x for pc in cont for x in pc] + [nact] + [x for row in rows for o in row for x in o]
+
+
+# two unlinks at one date; two truncating overwrites at one date; unlink + overwrite + growth, one actor a sub-round late
+CORPUS_MULTI = [
+    [10 ** 9, 2, 0, 1000, 10, 2500, 2, 0, 0, 0, 0, 0, 0, 10, 0, 5, 0, 0, 0, 5, 0, 0, 0],
+    [10 ** 9, 2, 0, 4000, 10, 4000, 2, 0, 0, 0, 0, 0, 0, 10, 0, 3, 0, 1000, 0, 3, 0, 1000, 0, 1, 0, 500, 0, 1, 0, 500, 0],
+    [10 ** 9, 3, 0, 1000, 10, 2500, 20, 4000, 3, 0, 0, 0, 0, 0, 0, 10, 0, 0, 0, 20, 0, 7, 0, 0, 0, 7, 0, 0, 0, 3, 0, 1000, 0,
+     5, 0, 0, 0, 5, 0, 0, 0, 1, 0, 500, 0],
+    [10 ** 9, 3, 0, 1000, 10, 2500, 20, 4000, 3, 0, 0, 0, 0, 0, 0, 10, 0, 0, 0, 20, 0, 3, 0, 5000, 0, 13, 0, 100, 0,
+     3, 0, 1000, 0, 15, 0, 0, 0, 1, 0, 700, 0, 21, 0, 500, 0, 0, 1, 1, 0, 5, 0, 0, 0, 3, 0, 9000, 0],
+]
+
+
+def split_multi(c):
+    nf = c[1]
+    nact = c[2 + 2 * nf]
+    rest = c[3 + 2 * nf:]
+    ops = [tuple(rest[i:i + 4]) for i in range(0, len(rest) - 3, 4)]
+    return nact, [ops[i:i + nact] for i in range(0, len(ops) - nact + 1, nact)]
+
+
+def parse_model_multi(m, nact):
+    """-> (rounds [(adm, used, total, npend, [res hsize pos]*nact)], final content or None (stopped by xbt_assert))"""
+    rounds, i, w = [], 0, 5 + 3 * nact
+    while i < len(m):
+        if m[i] == -7:
+            fl = m[i + 1:]
+            return rounds, sorted((fl[j], fl[j + 1]) for j in range(0, len(fl), 2))
+        if m[i] == -99:
+            return rounds, None
+        rounds.append((m[i + 1], m[i + 2], m[i + 3], m[i + 4], m[i + 5:i + w]))
+        i += w
+    return rounds, None
+
+
+def parse_impl_multi(line, nact):
+    """-> (rounds [(used, total, [res hsize pos]*nact)], final content or None, aborted)"""
+    toks = line.split()
+    aborted = bool(toks) and toks[-1] == "ABORT"
+    if aborted:
+        toks.pop()
+    rounds, cont, i, w = [], None, 0, 3 + 3 * nact
+    while i < len(toks):
+        if toks[i] == "C":
+            fl = [int(t) for t in toks[i + 1:]]
+            cont = sorted((fl[j], fl[j + 1]) for j in range(0, len(fl), 2))
+            break
+        t = toks[i:i + w]
+        if len(t) < w or t[0] != "R":
+            break
+        v = [int(x) for x in t[1:]]
+        rounds.append((v[0], v[1], v[2:]))
+        i += w
+    return rounds, cont, aborted
+
+
+def run_multi(ctx, drv, cases, dist):
+    """cases: [(input, kind)], kind in multi / multi-tight / corpus-multi"""
+    inputs = [c for c, _ in cases]
+    model = fw.run_model("c46", "run_c46_multi", inputs)
+    scratch = tempfile.mkdtemp(prefix="c46m_", dir=os.path.join(fw.B))
+    try:
+        rc, impl, err = fw.run_lines(drv, [scratch, "multi"], [" ".join(map(str, c)) for c in inputs])
+    finally:
+        for f in ("content.txt", "platform.xml"):
+            try:
+                os.remove(os.path.join(scratch, f))
+            except OSError:
+                pass
+        try:
+            os.rmdir(scratch)
+        except OSError:
+            pass
+    if rc != 0 or len(impl) != len(inputs):
+        ctx.fail("driver-crash", "xbt2_fs_drv multi ended with rc=%d after %d/%d cases: %s" % (rc, len(impl), len(inputs), err[-300:]),
+                 {"input": inputs[len(impl)] if len(impl) < len(inputs) else None, "kind": "multi"})
+        return
+    shapes = [split_multi(c) for c in inputs]
+    parsed = [parse_impl_multi(l, na) for l, (na, _) in zip(impl, shapes)]
+    # O: used == total at every audit point (verified oracle, record code 9 = audit: only the accounting conjunct applies)
+    oracle_in = []
+    for rounds, _, _ in parsed:
+        flat, ub, tb = [], -1, -1
+        for ua, ta, _ in rounds:
+            flat += [9, 0, 0, -1, -1, -1, ub, tb, -1, -1, ua, ta]
+            ub, tb = ua, ta
+        oracle_in.append(flat)
+    verdicts = fw.run_model("c46", "run_c46_oracle", oracle_in)
+    for (c, kind), m, (nact, rows), (irounds, icont, aborted), verdict in zip(cases, model, shapes, parsed, verdicts):
+        mrounds, mcont = parse_model_multi(m, nact)
+        dist[kind] = dist.get(kind, 0) + 1
+        dist["multi_rounds"] += len(irounds)
+        k = next((i for i, r in enumerate(mrounds) if r[0] == 0), len(mrounds))
+        dist["multi_inadmissible_cases"] += k < len(mrounds)
+        both = give = 0
+        for i, row in enumerate(rows[:len(irounds)]):
+            recs = irounds[i][2]
+            acc = sum(1 for a, o in enumerate(row) if o[0] % 10 in (1, 3, 5) and recs[3 * a] >= 0)
+            changed = i > 0 and irounds[i][0] != irounds[i - 1][0]
+            both += acc >= 2 and changed
+            give += sum(1 for a, o in enumerate(row) if o[0] % 10 == 5 and recs[3 * a] == 0) >= 2
+        dist["multi_rounds_2plus_accounting_ops"] += both
+        dist["multi_rounds_2plus_unlinks"] += give
+        nontriv = both > 0
+        ctx.case(("multi",) + tuple(c), nontriv,
+                 {"kind": kind, "input": c, "impl_last_audit": irounds[-1] if irounds else None} if nontriv and give and kind == "multi" else None)
+        case = {"input": c, "kind": kind}
+        bad = verdict[1] if verdict and verdict[0] == 0 else None
+        if bad is not None:
+            ua, ta, recs = irounds[bad]
+            ctx.fail("used-ne-total" if bad < k else "outside-discipline",
+                     "%d actors, content %s, round %d (every actor woken at date %d, audit at %d): operations %s -> used size %d but the "
+                     "files on the disk total %d (previous audit: used %s)"
+                     % (nact, c[2:2 + 2 * c[1]], bad, 1000 * (bad + 1), 1000 * (bad + 1) + 500, rows[bad], ua, ta,
+                        irounds[bad - 1][0] if bad else "initial"), case)
+            continue
+        if kind == "multi-tight":
+            continue  # the 'disk full' test reads used_size_ while other operations are in flight: judged by O only
+        for i in range(k):
+            adm, mu, mt, npend, mrecs = mrounds[i]
+            ir = irounds[i] if i < len(irounds) else None
+            if npend != 0 or ir is None or (mu, mt, mrecs) != ir:
+                ctx.mismatch("correspondence FileSystemConc.v / s4u_FileSystem.cpp (multi-actor)",
+                             "%d actors, content %s, round %d operations %s: model (used, total, [res size pos]*) %s pending %d, "
+                             "implementation %s%s" % (nact, c[2:2 + 2 * c[1]], i, rows[i], (mu, mt, mrecs), npend, ir,
+                                                      " (stopped)" if ir is None else ""), case)
+                break
+        else:
+            if k == len(mrounds) and mcont is not None and (icont != mcont or aborted):
+                ctx.mismatch("correspondence FileSystemConc.v / s4u_FileSystem.cpp (multi-actor, final content)",
+                             "rounds %s: model content %s, implementation %s%s" % (rows, mcont, icont, " ABORT" if aborted else ""), case)
+
+
 def parse_model(m):
     """-> (steps [(adm, rec or None)], final content or None)"""
     steps, i = [], 0
@@ -181,20 +416,7 @@ def split_case(c):
     return [tuple(rest[i:i + 4]) for i in range(0, len(rest) - 3, 4)]
 
 
-def run(ctx):
-    ctx.simgrid(["simgrid"])
-    ctx.prove()
-    drv = fw.build_harness("xbt2_fs_drv")
-    if ctx.replay:
-        cases = [(json.load(open(ctx.replay))["case"]["input"], "replay")]
-    else:
-        nd, nw = ctx.n(700, 14000), ctx.n(300, 6000)
-        cases = [(c, "corpus") for c in CORPUS] + [(gen_case(ctx.rng, False), "disciplined") for _ in range(nd)] \
-            + [(gen_case(ctx.rng, True), "wild") for _ in range(nw)]
-    ctx.cov["rule"] = ("operation sequences of 1..40 steps (open/write append|overwrite|in place/read/seek SET|CUR|END/move/"
-                       "unlink/close) over <=5 paths and <=4 File objects on a disk with 0..5 initial files and a capacity that is "
-                       "sometimes nearly exhausted; 'disciplined' stream follows the discipline of the theorem, 'wild' does not; "
-                       "non-trivial = the admissible prefix changes the used size or moves a file; distinct = distinct inputs")
+def run_single(ctx, drv, cases, dist):
     inputs = [c for c, _ in cases]
     model = fw.run_model("c46", "run_c46", inputs)
     scratch = tempfile.mkdtemp(prefix="c46_", dir=os.path.join(fw.B))
@@ -218,8 +440,6 @@ def run(ctx):
     # O: the verified oracle on every complete record the implementation produced
     oracle_in = [[x for r in recs if r is not None for x in r] for recs, _, _ in parsed]
     verdicts = fw.run_model("c46", "run_c46_oracle", oracle_in)
-    dist = {"corpus": 0, "disciplined": 0, "wild": 0, "replay": 0, "steps": 0, "admissible_steps": 0, "aborts": 0,
-            "fully_admissible": 0, "ops": {str(k): 0 for k in range(7)}}
     for (c, kind), m, (recs, cont, aborted), verdict in zip(cases, model, parsed, verdicts):
         ops = split_case(c)
         msteps, mcont = parse_model(m)
@@ -263,6 +483,42 @@ def run(ctx):
             if k == len(msteps) and mcont is not None and (cont != mcont or aborted):
                 ctx.mismatch("correspondence FileSystem.v / s4u_FileSystem.cpp (final content)",
                              "ops %s: model content %s, implementation %s%s" % (ops, mcont, cont, " ABORT" if aborted else ""), case)
+
+
+def run(ctx):
+    ctx.simgrid(["simgrid"])
+    ctx.prove()
+    drv = fw.build_harness("xbt2_fs_drv")
+    mcases = []
+    if ctx.replay:
+        rc_ = json.load(open(ctx.replay))["case"]
+        if str(rc_.get("kind", "")).find("multi") >= 0:
+            cases, mcases = [], [(rc_["input"], rc_["kind"])]
+        else:
+            cases = [(rc_["input"], "replay")]
+    else:
+        nd, nw = ctx.n(700, 14000), ctx.n(300, 6000)
+        cases = [(c, "corpus") for c in CORPUS] + [(gen_case(ctx.rng, False), "disciplined") for _ in range(nd)] \
+            + [(gen_case(ctx.rng, True), "wild") for _ in range(nw)]
+        nm, nt = ctx.n(300, 6000), ctx.n(50, 1000)
+        mcases = [(c, "corpus-multi") for c in CORPUS_MULTI] + [(gen_multi(ctx.rng, False), "multi") for _ in range(nm)] \
+            + [(gen_multi(ctx.rng, True), "multi-tight") for _ in range(nt)]
+    ctx.cov["rule"] = ("operation sequences of 1..40 steps (open/write append|overwrite|in place/read/seek SET|CUR|END/move/"
+                       "unlink/close) over <=5 paths and <=4 File objects on a disk with 0..5 initial files and a capacity that is "
+                       "sometimes nearly exhausted; 'disciplined' stream follows the discipline of the theorem, 'wild' does not; "
+                       "non-trivial = the admissible prefix changes the used size or moves a file; distinct = distinct inputs. "
+                       "Multi-actor stream: 2-3 actors, each with <=3 own paths and own File objects, 2..14 rounds of one operation "
+                       "per actor started at the same simulated date (20% of the operations delayed by 1-2 yields), 40% of the "
+                       "rounds biased to give space back (unlink / truncating overwrite) in several actors at once; 'multi-tight' = "
+                       "capacity nearly exhausted (oracle only); non-trivial = some round in which >= 2 actors changed the accounting")
+    dist = {"corpus": 0, "disciplined": 0, "wild": 0, "replay": 0, "steps": 0, "admissible_steps": 0, "aborts": 0,
+            "fully_admissible": 0, "ops": {str(k): 0 for k in range(7)},
+            "corpus-multi": 0, "multi": 0, "multi-tight": 0, "multi_rounds": 0, "multi_inadmissible_cases": 0,
+            "multi_rounds_2plus_accounting_ops": 0, "multi_rounds_2plus_unlinks": 0}
+    if cases:
+        run_single(ctx, drv, cases, dist)
+    if mcases:
+        run_multi(ctx, drv, mcases, dist)
     ctx.cov["input_distribution"] = dist
     ctx.assumptions += [
         "one disk is modelled; several disks are independent (each File touches only the FileSystemDiskExt of its local_disk_)",
@@ -270,6 +526,11 @@ def run(ctx):
         "Disk::read/Disk::write perform the whole request (checked by the correspondence); remote hosts (Comm::sendto) not modelled",
         "sg_size_t/sg_offset_t are 64 bits; used_size_ arithmetic is modelled modulo 2^64 and the theorem is stated modulo 2^64 "
         "(with equality when the total is below 2^64)",
+        "multi-actor mode: a File object is used by one actor only (its path_/size_/current_position_ are private), so the model "
+        "updates it in the first segment of the operation; what other actors observe (content_, used_size_) changes atom by atom",
+        "multi-actor mode compares at audit points where no operation is in flight; the model's schedule (all first segments, then "
+        "the updates round-robin) is one of the interleavings covered by C46_concurrent_used_eq_sum_partial; with an ample capacity "
+        "the audited values do not depend on the schedule (checked by the correspondence, not proved)",
     ]
 
 
@@ -282,11 +543,25 @@ META = {
             "C46_unlink_returns_size (the file disappears, used size and total drop by exactly its size), C46_oracle_is_spec / "
             "C46_model_passes_oracle (the per-step oracle is the specification and the model satisfies it). The model mirrors "
             "s4u_FileSystem.cpp (open/write/read/seek/move/unlink/close, 64-bit wrap, xbt_assert) and is tied to the rebuilt plugin "
-            "by differential runs; the oracle is run on every observation of the real code.",
+            "by differential runs; the oracle is run on every observation of the real code. Several actors on one disk "
+            "(FileSystemConc.v): each operation is cut into its atomic segments (first segment up to the first accounting simcall, "
+            "then used_size_ += / -=, content entry replace / erase, one at a time); C46_segments_refine_step / C46_solo_refines_step "
+            "(uninterrupted segments = one step of the single-actor model), C46_interleaving_preserves_accounting and "
+            "C46_concurrent_used_eq_sum_partial (after ANY interleaving of the segments of operations of different actors on "
+            "different files, used size = total of the files - what the operations in flight still owe, hence = total whenever "
+            "nothing is in flight). Tied by a multi-actor mode of the driver (2-3 actors, operations started at the same simulated "
+            "dates, audit by a further actor after every round) compared with the extracted interleaving model, oracle at every audit.",
     "note": "Partial: outside the discipline the real code violates the statement (C46_*_refuted; KNOWN_FINDINGS two-handles, "
             "use-after-move, use-after-unlink, move-onto-existing) - those histories are judged by the oracle only. The pinned "
             "overwrite defect (C46_pinned_write_refuted) was repaired by a fix: commit. Not modelled: remote disks/hosts, "
-            "remote_copy/remote_move, file descriptor table, duplicate paths in a content file, simulated time.",
+            "remote_copy/remote_move, file descriptor table, duplicate paths in a content file, durations of the disk I/O (dates only "
+            "align the actors). Multi-actor: File objects are private to one actor and actors work on disjoint paths (discipline "
+            "madmissible); the audited values are compared with ONE schedule of the model (all first segments, then updates "
+            "round-robin) - their independence of the schedule is checked, not proved, and does not hold for the 'disk full' test "
+            "(it reads used_size_ while other operations are in flight), so nearly-full multi-actor cases are judged by the oracle "
+            "only. Strengthened after seeded change C46-a (read-modify-write of used_size_ split across the simcall boundary), "
+            "which the single-actor generator could not see; mutants in corpus/C46/mutants.list.",
     "technique": "Coq proof (inductive invariant over an association-list model, modular arithmetic) + extracted-model differential "
-                 "correspondence + verified per-step oracle on implementation observations",
+                 "correspondence (single-actor sequences and multi-actor synchronised rounds) + verified per-step oracle on "
+                 "implementation observations; potential-function invariant over interleavings of atomic segments",
 }
